@@ -610,7 +610,9 @@ def check_leftovers(w, c):
     if rec.get("submits_after_over"):
         return V("dispatch_after_call_over", "call %d: batches %s submitted after the call was over" % (
             c, rec["submits_after_over"][:5]))
-    if w.case["flavour"] in ("T", "M", "L") and rec.get("starts_after_over"):
+    # (a generator finalised by a foreign thread is aborted by a helper thread of joblib, asynchronously: when the run is
+    # stamped as over at the moment the foreign close / del returned, batches already handed to the pool may still start)
+    if w.case["flavour"] in ("T", "M", "L") and rec.get("starts_after_over") and not rec.get("detached_abort_pending"):
         return V("task_started_after_call_over", "call %d: tasks %s started after the call was over" % (
             c, rec["starts_after_over"][:5]))
     return None
